@@ -26,7 +26,8 @@ RULE = (
     "are prefixes of / share characters with other names), default / named / no outputs, 0-3 inputs, several sinks, shared "
     "sub-expressions, deliberate duplicates and near-duplicates) plus per transformation: an injective renaming; a generated "
     "fuse decision per candidate with a faithful fused-node builder; a generated key map node->{0,1,2} for split; for expand a "
-    "generated sub-graph (1-5 nodes), input map and output map for a generated subset of nodes. A counted class uses output names "
+    "generated sub-graph (1-5 nodes; inner names may carry the expanded node's own dotted prefix; leaves are output-less sinks or "
+    "terminals declaring the default output), input map and output map for a generated subset of nodes. A counted class uses output names "
     "that collide with node attributes (name, payload, inputs, outputs, copy) and input names that collide with callback "
     "parameters (node, n, s, p). non-trivial = the graph has >=1 shared sub-expression and >=2 sinks, and per transformation: "
     "dedup >=1 real duplicate; fuse >=1 fusion performed; expand >=1 expanded node with a consumer; split >=1 cut edge; "
